@@ -2,7 +2,7 @@ SPECIFICATION Spec
 CONSTANTS
   Hash <- SHA1
   Exp = "vanilla"
-  EncSizes = {1, 41}
+  EncSizes = {1, 40, 41}
   DecSizes = {0, 3}
   MaxOps = 4
   ProgLen = 3
